@@ -249,6 +249,13 @@ func (o *Operations) Update(
 			}
 		} else {
 			hdr.PAXRecords[records.STFSRecordReplacesContent] = records.STFSRecordReplacesContentFalse
+
+			// The record carries no content; keep the size of the entry's content in it, so that indexing this record
+			// does not reset the entry's size to 0 (entries that were not written by STFS, i.e. the members of
+			// an existing tar archive, don't carry this record yet)
+			if _, ok := hdr.PAXRecords[records.STFSRecordUncompressedSize]; !ok {
+				hdr.PAXRecords[records.STFSRecordUncompressedSize] = strconv.Itoa(int(hdr.Size))
+			}
 			hdr.Size = 0 // Don't try to seek after the record
 
 			if o.onHeader != nil {
